@@ -372,10 +372,35 @@ fn body_graph(ch: &Ch) -> Run {
   let sched = Sched::new(SchedMode::Immediate);
   let loader = ScriptedLoader::new(sched);
   let mut root = String::new();
+  // a neighbour package with the same requirement text but other versions,
+  // imported before or after: selections must not leak between packages
+  let neighbour = ch.choose("neighbour_package_imported", 3);
+  if neighbour == 1 {
+    root.push_str("import * as n from \"jsr:@s/n@^1\";\n");
+  }
   for (i, t) in imports.iter().enumerate() {
     root.push_str(&format!("import * as i{i} from \"{t}\";\n"));
   }
+  if neighbour == 2 {
+    root.push_str("import * as n from \"jsr:@s/n@^1\";\n");
+  }
   loader.add_text("https://x/root.ts", &root);
+  if neighbour > 0 {
+    let before = created_at(Created::Before).map(|d| serde_json::to_value(d).unwrap().as_str().unwrap().to_string());
+    RegPackage {
+      name: "@s/n".into(),
+      versions: ["1.0.5", "1.3.0", "2.1.0"]
+        .iter()
+        .map(|v| {
+          let mut rv = RegVersion::new(v, &[("/mod.ts", "export const n = 1;\n")]);
+          rv.created_at = before.clone();
+          rv
+        })
+        .collect(),
+      raw_meta: None,
+    }
+    .install(&loader);
+  }
   let pkg = RegPackage {
     name: "@s/a".into(),
     versions: registry
@@ -439,6 +464,7 @@ fn body_graph(ch: &Ch) -> Run {
     "registry": registry.iter().zip(&states).map(|((v, _), s)| format!("{v}: {}", G_STATES[*s].0)).collect::<Vec<_>>(),
     "program": root, "lockfile_selection": seeded, "date_config": (["none", "cutoff", "cutoff-but-package-excluded"][date_cfg]),
     "prefer_cached_jsr_versions": prefer > 0, "cached_version_manifests": cached_sets[prefer],
+    "neighbour_package": (["none", "imported first", "imported last"][neighbour]),
   });
   if r.is_err() {
     run.violate("build-did-not-finish", "deadlock", desc.clone());
@@ -515,6 +541,14 @@ fn body_graph(ch: &Ch) -> Run {
         other => run.violate("unsatisfiable-requirement-not-an-error", format!("{t}: {:?}", other.map(|m| m.map(|m| m.specifier().to_string())).map_err(|e| e.to_string())), desc.clone()),
       },
     }
+  }
+  if neighbour > 0 {
+    let t = "jsr:@s/n@^1";
+    let got = graph.redirects.get(&url(t)).map(|u| u.to_string());
+    if got.as_deref() != Some("https://jsr.io/@s/n/1.3.0/mod.ts") {
+      run.violate("neighbour-package-selection-wrong", format!("{t}: redirected to {got:?}, its newest matching version is 1.3.0"), desc.clone());
+    }
+    exp_map.insert(PackageReq::from_str("@s/n@^1").unwrap(), "@s/n@1.3.0".to_string());
   }
   let got_map: std::collections::BTreeMap<PackageReq, String> = graph.packages.mappings().iter().map(|(k, v)| (k.clone(), v.to_string())).collect();
   if got_map != exp_map {
